@@ -5,7 +5,7 @@ Each patch is applied to a scratch git worktree of the tree under test (outside 
 them with --all-checks) must exit 1 with a VIOLATION line, and the minimised replay file must
 reproduce there and be clean on the unchanged tree.
 
-usage: /venv/bin/python -m checks.seeded [--only id,...] [--all-checks]"""
+usage: /venv/bin/python -m checks.seeded [--only id,...] [--all-checks] [--fast]"""
 from __future__ import annotations
 
 import argparse
@@ -20,7 +20,7 @@ import time
 VERIF = os.path.dirname(os.path.dirname(os.path.abspath(__file__)))
 
 
-def run_seed(sid, all_checks=False):
+def run_seed(sid, all_checks=False, fast=False):
     d = os.path.join(VERIF, "seeded", sid)
     meta = json.load(open(os.path.join(d, "meta.json")))
     repo = os.environ.get("JASM_VERIF_REPO", "/repo")
@@ -39,7 +39,7 @@ def run_seed(sid, all_checks=False):
             exits = {}
             esc = 0
             for prop in ("C14", "C15", "C17", "C20"):
-                r = subprocess.run([os.path.join(VERIF, "check"), prop, "--tier", "quick", "--no-evidence"], env=env, capture_output=True, text=True)
+                r = subprocess.run([os.path.join(VERIF, "check"), prop, "--tier", "quick", "--no-evidence", "--budget", "900"], env=env, capture_output=True, text=True)
                 exits[prop] = r.returncode
                 esc += r.stderr.count("seam-escape")
                 for mm in re.finditer(r"^VIOLATION property=\S+ replay=(\S+)$", r.stdout, re.M):
@@ -50,7 +50,8 @@ def run_seed(sid, all_checks=False):
             return [{"id": sid, "check": "all four", "exits": exits, "seam_escape_warnings": esc, "ok": all(v == 0 for v in exits.values()), "wall": round(time.monotonic() - t0, 1)}]
         for prop in (meta["detected_by"] if all_checks else meta["detected_by"][:1]):
             t0 = time.monotonic()
-            r = subprocess.run([os.path.join(VERIF, "check"), prop, "--tier", "quick", "--no-evidence"], env=env, capture_output=True, text=True)
+            r = subprocess.run([os.path.join(VERIF, "check"), prop, "--tier", "quick", "--no-evidence", "--budget", "900"] + (["--stop-on-violation"] if fast else []),
+                               env=env, capture_output=True, text=True)
             m = re.search(r"^VIOLATION property=(\S+) replay=(\S+)$", r.stdout, re.M)
             detected = r.returncode == 1 and m is not None
             rep = clean = None
@@ -77,14 +78,16 @@ def main(argv=None):
     ap = argparse.ArgumentParser()
     ap.add_argument("--only")
     ap.add_argument("--all-checks", action="store_true")
+    ap.add_argument("--fast", action="store_true", help="a breaking change counts as detected at the first violation: the rest of the quick tier is not explored")
     a = ap.parse_args(argv)
-    ids = sorted(x for x in os.listdir(os.path.join(VERIF, "seeded")) if os.path.isfile(os.path.join(VERIF, "seeded", x, "meta.json")))
+    ids = sorted((x for x in os.listdir(os.path.join(VERIF, "seeded")) if os.path.isfile(os.path.join(VERIF, "seeded", x, "meta.json"))),
+                 key=lambda x: (x.startswith("ok-"), {"ok-s": 0, "ok-q": 1, "ok-p": 2, "ok-r": 3}.get(x[:4], 0), x))
     if a.only:
         ids = [i for i in ids if i in set(a.only.split(","))]
     bad = 0
     n = 0
     for sid in ids:
-        for r in run_seed(sid, a.all_checks):
+        for r in run_seed(sid, a.all_checks, a.fast):
             n += 1
             print(("ok   " if r["ok"] else "FAIL ") + " ".join(f"{k}={v}" for k, v in r.items() if k != "ok"), flush=True)
             bad += 0 if r["ok"] else 1
